@@ -189,7 +189,9 @@ def p9(ctx: Ctx):
     py = pyfacts(ctx)
     for cls in sorted(py.subclasses("BasicConstructVisitor")):
         ci = py.cls(cls)
-        init = ci.methods.get("__init__")
+        # (the constructor may be inherited from a shared detector base class)
+        r_init = py.resolve_method(cls, "__init__")
+        init = r_init[1] if r_init is not None and r_init[0].name != "BasicConstructVisitor" else None
         if init is None:
             continue
         flags = [t.attr for s in ast.walk(init) if isinstance(s, ast.Assign) and isinstance(s.value, ast.Constant) and s.value.value is False for t in s.targets if is_self_attr(t)]
